@@ -312,7 +312,7 @@ func uniqInts(a []int) []int {
 	return out
 }
 
-var famFixedWords = []string{"script", "svg", "iframe", "style", "onerror", "onload", "href", "src", "xmlns", "select", "union", "sleep", "and", "or", "null", "from", "javascript", "data", "import", "entity", "xml", "like", "exec"}
+var famFixedWords = []string{"script", "svg", "iframe", "style", "onerror", "onload", "href", "src", "xmlns", "select", "union", "sleep", "and", "or", "null", "from", "javascript", "data", "import", "entity", "xml", "like", "exec", "pg_sleep", "current_user", "load_file"}
 
 var famSQLTemplates = []string{"%s", "1 or %s", "`%s`", "1 or `%s`", "'%s'", "\"%s\"", "@%s", "%s(1)", "`%s`(1)", "1 %s 1", "select %s from t"}
 var famXSSTemplates = []string{"<%s>", "<%s x=1>", "<a %s=1>", "<a href=%s:x>", "<a %s>", "%s=1", "</%s>", "<!--%s-->", "<?%s?>", "<a style=%s>", "<img src=\"%s:\">", "<a href=%s>"}
@@ -381,6 +381,21 @@ func addFamilies(c *common.Corpus, dict []string, seed uint64, novel []string) i
 		}
 		if i := strings.IndexAny(w, "sS"); i >= 0 {
 			variants = append(variants, w[:i]+"\u017f"+w[i+1:])
+		}
+		// case-bit confusion: bytes next to the letter ranges differ from another
+		// printable byte only in bit 0x20 ('_' / DEL, '@' / '`', '[' / '{' ...); folding
+		// done with bit arithmetic instead of a range check conflates them
+		for i := 0; i < len(w); i++ {
+			c := w[i]
+			if c >= 0x40 && c <= 0x7f && !(c >= 'a' && c <= 'z') && !(c >= 'A' && c <= 'Z') {
+				variants = append(variants, w[:i]+string([]byte{c ^ 0x20})+w[i+1:])
+				break
+			}
+		}
+		// near-miss spellings: one character replaced by a digit / punctuation (tables
+		// indexed by a character class, prefix tests followed by a lookup)
+		if len(w) >= 4 {
+			variants = append(variants, w[:2]+"1"+w[3:], w[:1]+"-"+w[2:])
 		}
 		// one family per WORD; members template-major so that all spellings of the
 		// word in one syntactic position are asked back to back
